@@ -57,6 +57,17 @@ func (r *reader) Close() (err error) {
 
 type writer struct{ *lz4.Writer }
 
+// ReadFrom shadows lz4.Writer.ReadFrom, which is only valid as the very first
+// operation on a stream: after a Write it fails with "unhandled state". io.Copy
+// picks the destination's ReadFrom when the source has no WriteTo, which is how
+// record keys and values that are plain kafka.Bytes implementations reach the
+// compressor in the middle of a record set.
+func (w *writer) ReadFrom(r io.Reader) (int64, error) {
+	return io.Copy(writerOnly{w.Writer}, r)
+}
+
+type writerOnly struct{ io.Writer }
+
 func (w *writer) Close() (err error) {
 	if z := w.Writer; z != nil {
 		w.Writer = nil
